@@ -68,10 +68,18 @@ def main(argv=None):
     harness_errors = []
     for hn in names:
         h = runner.HARNESSES[hn]
-        for p in h.params(args.tier):
+        plist = h.params(args.tier)
+        if getattr(h, "parallel_params", False):
+            work = [({"explorations": len(plist)}, plist)]
+        else:
+            work = [(p, None) for p in plist]
+        for p, many in work:
             limits = dict(p.pop("_limits", {})) if "_limits" in p else {}
             th = time.time()
-            res = runner.explore(h, p, limits=limits, jobs=args.jobs)
+            if many is not None:
+                res = runner.explore_many(h, many, jobs=args.jobs)
+            else:
+                res = runner.explore(h, p, limits=limits, jobs=args.jobs)
             st = res["st"]
             paths = max(1, st.get("paths", 0))
             inconcl = st.get("unknown", 0) + st.get("unsupported", 0) + st.get("budget", 0) + st.get("timeout", 0)
@@ -86,6 +94,8 @@ def main(argv=None):
                 "reachability_witness": res["witness"], "samples": res["samples"], "top_fork_sites": [[list(k) if isinstance(k, tuple) else k, v] for k, v in res["fork_sites"]],
                 "conclusive_share": round(share, 4), "bounds": h.bounds, "outside": h.outside,
             }
+            if "per_params" in res:
+                row["explorations"] = res["per_params"]
             per_h.append(row)
             print(
                 "%-6s %-40s paths=%d reached=%d discharged=%d trivial=%d violated=%d exc=%d unsup=%d unknown=%d queries=%d solver=%.1fs wall=%.1fs"
@@ -112,11 +122,15 @@ def main(argv=None):
                         props = sorted(tagged)
                 if prop not in props:
                     continue
-                sig = "%s:%s" % (hn, cex["sig"])
-                f = findings.setdefault(sig, {"harness": h, "params": p, "cexs": [], "count": 0})
-                f["count"] = max(f["count"], res["sig_count"].get(cex["sig"], 1))
-                if len(f["cexs"]) < 3:
-                    f["cexs"].append(cex)
+                sigs = ["%s:%s" % (hn, cex["sig"])]
+                if getattr(h, "per_clause_findings", False) and cex["detail"].get("kind") == "vc":
+                    mine = [f for f in cex["detail"].get("failed", []) if f.startswith(prop + ":")] or cex["detail"].get("failed", [])
+                    sigs = ["%s:vc:%s" % (hn, f) for f in mine]
+                for sig in sigs:
+                    f = findings.setdefault(sig, {"harness": h, "params": cex.get("params", p), "cexs": [], "count": 0})
+                    f["count"] = max(f["count"], res["sig_count"].get(cex["sig"], 1))
+                    if len(f["cexs"]) < 3:
+                        f["cexs"].append(cex)
 
     # replay one representative per signature (fall back to the next if the first does not reproduce)
     violations = []
@@ -126,7 +140,7 @@ def main(argv=None):
         confirmed = None
         last = None
         for cex in f["cexs"]:
-            path = runner.write_replay(prop, h, f["params"], cex)
+            path = runner.write_replay(prop, h, cex.get("params", f["params"]), cex)
             r = runner.run_replay_subprocess(path)
             last = (path, r)
             if r.get("reproduced"):
@@ -137,7 +151,7 @@ def main(argv=None):
             continue
         path, cex, r = confirmed
         k = next((k for k in known if k.get("signature") == sig), None)
-        inp = json.dumps(h.describe(cex["values"], f["params"]), default=repr)[:300]
+        inp = json.dumps(h.describe(cex["values"], cex.get("params", f["params"])), default=repr)[:300]
         if k is not None:
             known_hits.append(sig)
             print("KNOWN-FINDING: property=%s %s [%s] e.g. %s" % (prop, k.get("what", sig), sig, inp))
